@@ -6,8 +6,8 @@ export GOFLAGS=-mod=mod GOPROXY=off
 mkdir -p .bin .work evidence replays
 (cd /repo && go build ./... ) || exit 1
 fail=0
-for d in mc/cmd/c[0-9][0-9]/; do
-  id=$(basename "$d" | tr 'a-z' 'A-Z')
+# only the checks registered in MANIFEST.json (tools/checks.json is its source); directories of checks still being built are skipped
+for id in $(jq -r '.checks[].id' tools/checks.json | sort); do
   ./check "$id" build || { echo "setup: build of $id failed"; fail=1; }
 done
 [ $fail = 0 ] && echo setup ok
